@@ -242,7 +242,11 @@ def binop(st, op, a, b):
         if isinstance(op, ast.Sub):
             return Sym("real", x - y)
         if isinstance(op, ast.Mult):
-            return Sym("real", x * y)
+            r = x * y
+            if not (z3.is_rational_value(x) or z3.is_rational_value(y) or z3.is_int_value(x) or z3.is_int_value(y)):
+                # valid facts about a product of two unknowns, given to the solver as lemma instances (nonlinear arithmetic needs prompting)
+                st.assume(z3.Implies(z3.And(x >= 0, y >= 0), z3.And(r >= 0, z3.Implies(x <= 1, r <= y), z3.Implies(y <= 1, r <= x))))
+            return Sym("real", r)
         if isinstance(op, ast.Div):
             return Sym("real", x / y)
     else:
